@@ -4,8 +4,7 @@
 // NewOptions()), option resolution before New, a failed New is fatal, Main started once, Exit only through the Once. Comment-only file.
 // Assumed library contracts: .trusted/r6K.spec (flag defaults), r5I.spec (package flag, svc.Run), and the in-package externs below.
 //
-// logFatal (lg.LogFatal -> log line, os.Exit(1)) has NO contract: a function that never returns cannot carry one (vacuity guard, notes
-// area_r5I gap I1). It is inlined at every call site down to os.Exit ("does not return", hfile.spec), so "a failure is fatal" is checked
+// logFatal (lg.LogFatal -> log line, os.Exit(1)): `noreturn` contract in zz_contracts_r7_verif.go (round 7). "A failure is fatal" is checked
 // at the callers: on every path that RETURNS from Start the failing call did not fail.
 
 package main
